@@ -16,8 +16,10 @@ from harness import common as C
 from harness import nnprobe as P
 
 PROP = "C14"
-HEADER = "Require Import PF.Lib.Tensor PF.Model.Layers PF.Model.LayersRun."
-MODEL_TARGETS = ["Model/LayersRun.vo"]
+HEADER = ("From Coq Require Import QArith.\n"
+          "Require Import PF.Lib.Tensor PF.Model.Layers PF.Model.LayersRun PF.Gen.Tables PF.Model.Encoders.\n"
+          "Close Scope Q_scope. Close Scope Z_scope. Open Scope nat_scope.")
+MODEL_TARGETS = ["Model/LayersRun.vo", "Model/Encoders.vo"]
 SHARD = 8
 RULE = ("one case = (model of the zoo, option variant, task type, explicit small dataset with missing cells and "
         ">= 2 columns per used stype, a parameter-state history eval -> (train 1-3 SGD steps -> eval)* of 0-3 rounds "
@@ -64,6 +66,11 @@ ASSUMPTIONS = [
     "float32 (it raises under a float64 default dtype), tolerance 2e-5 relative there",
     "completeness trials re-draw parameters from the SAME state (fresh initialisation + the same training history), "
     "never by adding noise: a column that cannot influence a freshly initialised model is reported",
+    "the feature encoder is an argument Enc with the hypothesis acts_rowwise in the general C14 theorems; for the "
+    "built-in stype encoders the hypothesis is discharged (Props/C14.v *_with_builtin_encoders_rowwise) by C13's "
+    "per-cell theorem over Model/Encoders.v, and on every small case with an explicit numerical encoder the real "
+    "encoder stage (forward hook) is compared with that model: shape, raise / no raise, zero pattern of missing cells "
+    "(check_enc, generic parameters)",
     "no rejection is demanded anywhere in C14 (the statement has no such clause): what the constructors do with "
     "num_layers <= 0 or ExcelFormer on categorical columns is recorded as an observation only",
     "only stypes a model uses are generated (numerical + categorical; ExcelFormer numerical only): the quantifier "
@@ -330,6 +337,73 @@ def _history(case, tf0, model):
     return phases
 
 
+def _encoder_stage(case, ds, tf, model):
+    """The numerical stype-encoder stage of the real model (first module of the drawn class, forward hook): input
+    cells, the column statistics it was built from, output shape and which cells are embedded as the all-zero vector.
+    Compared by coq_term with C13's model of that encoder class (Model/Encoders.v), the instance the theorems
+    *_with_builtin_encoders_rowwise of Props/C14.v are about.  Fail-soft: None when the module cannot be found."""
+    from torch_frame import stype as _st
+    from torch_frame.data.stats import StatType
+    cls = case["opts"].get("num_enc")
+    if cls is None or _st.numerical not in tf.feat_dict:
+        return None
+    try:
+        mod = next(m for m in model.modules() if type(m).__name__ == cls)
+        if getattr(mod, "post_module", None) is not None:
+            return None
+        grabbed = {}
+        h = mod.register_forward_hook(lambda m_, a, out: grabbed.__setitem__("y", out.detach().clone()))
+        try:
+            P.fwd(model, tf)
+        finally:
+            h.remove()
+        y = grabbed["y"]
+        feat = tf.feat_dict[_st.numerical]
+        names = tf.col_names_dict[_st.numerical]
+        stats = []
+        for nm in names:
+            cs = ds.col_stats[nm]
+            stats.append({"MEAN": float(cs[StatType.MEAN]), "STD": float(cs[StatType.STD]),
+                          "QUANTILES": [float(q) for q in cs[StatType.QUANTILES]]})
+        if any(v != v for s_ in stats for v in [s_["MEAN"], s_["STD"]] + s_["QUANTILES"]):
+            return None
+        cells = [[None if v != v else float(v) for v in row] for row in feat.tolist()]
+        zeros = [[bool((y[r, j] == 0).all()) for j in range(y.shape[1])] for r in range(y.shape[0])]
+        return {"cls": cls, "na": case["opts"].get("num_na"), "shape": [int(v) for v in y.shape], "cells": cells,
+                "stats": stats, "zeros": zeros}
+    except Exception:
+        return None
+
+
+def coq_encoder_stage(es):
+    """check_enc (Model/Encoders.v) of C13's model of the encoder class, generic parameters, on the real cells."""
+    from fractions import Fraction
+
+    from harness import encoders as H
+    B, nc, ch = es["shape"]
+    n = lambda k: f"{k}%nat"  # noqa: E731
+    cls = es["cls"]
+    if cls == "LinearEncoder":
+        enc = f"(ELinear QS (gmat 0 0 {n(nc)} {n(ch)}) (gmat 1 0 {n(nc)} {n(ch)}))"
+    elif cls == "StackEncoder":
+        enc = "(EStack QS)"
+    elif cls == "ExcelFormerEncoder":
+        enc = "(EExcel QS " + " ".join(f"(gmat {k} 0 {n(nc)} {n(ch)})" for k in range(4)) + ")"
+    elif cls == "LinearPeriodicEncoder":
+        enc = (f"(EPeriodic QS (gmat 0 0 {n(nc)} 4%nat) " + C.clist(range(nc), lambda j: f"gmat 4 {j} 8%nat {n(ch)}") + ")")
+    elif cls == "LinearBucketEncoder":
+        enc = ("(EBucket QS " + C.clist(range(nc), lambda j: f"gmat 5 {j} 4%nat {n(ch)}") + f" (gmat 1 0 {n(nc)} {n(ch)}))")
+    else:
+        return None
+    q = lambda v: H.cx(None if v is None else Fraction(v))  # noqa: E731
+    stats = C.clist(es["stats"], lambda s_: f"(qcs {q(s_['MEAN'])} {q(s_['STD'])} {C.clist(s_['QUANTILES'], q)} 0%nat 0%Z "
+                                            f"[] [] [] 0%nat)")
+    na = "None" if es["na"] is None else f"(Some na_{es['na'].upper()})"
+    x = "(InNum QS " + C.clist(es["cells"], lambda row: C.clist(row, q)) + ")"
+    zeros = C.clist(es["zeros"], lambda row: C.clist(row, C.cbool))
+    return (f"check_enc false (qconfig {enc} {stats} {n(ch)} {na}) {x} false ({n(B)}, {n(nc)}, {n(ch)}) {zeros} [] None")
+
+
 def expected_probe(case, pname, kinds, K):
     """Which (column c, position k) pairs the architecture's glue lets interact -- used ONLY to decide whether a
     further completeness trial is needed; the comparison itself is done by the Coq model (coq_term)."""
@@ -414,6 +488,7 @@ def _probe(case, ds, tf0, model, outc):
                 o["ghost_vbs"] = int(gbn.virtual_batch_size)
             except Exception:
                 o["ghost_sizes"] = None
+    o["enc_stage"] = _encoder_stage(case, ds, tf, model) if case["kind"] == "small" else None
     o["probe_names"] = pnames
     o["probe_K"] = [None if b is None else int(b.shape[1]) for b in base]
     expect = [None if b is None else expected_probe(case, pn, o["col_kinds"], int(b.shape[1]))
@@ -636,6 +711,9 @@ def stats(cases, obss):
         d["with_missing"] += int(o["has_missing"])
         if o.get("ghost_sizes"):
             d["ghost_size_lists_compared"] = d.get("ghost_size_lists_compared", 0) + 1
+        if o.get("enc_stage"):
+            dd = d.setdefault("encoder_stage_compared", {})
+            dd[o["enc_stage"]["cls"]] = dd.get(o["enc_stage"]["cls"], 0) + 1
         for cp in (o.get("probe_complete") or [])[:-1]:
             if cp is not None:
                 d["probes_total"] = d.get("probes_total", 0) + 1
@@ -687,6 +765,10 @@ def coq_term(case, obs, model=None):
     fps = "[" + "; ".join("None" if m is None else f"Some ({C.cbool(bool(cp))}, {P.cbmat(m)})"
                           for m, cp in zip(obs["probe_fp"], comp)) + "]"
     term = f"model_fp_ok {obs['ncols']} ({coq_model_term(case, obs, model)}) {obs['n']} {rows} {fps}"
+    if model is None and obs.get("enc_stage"):
+        t2 = coq_encoder_stage(obs["enc_stage"])
+        if t2 is not None:
+            term = f"({term} && {t2})"
     if model is None and case["model"] == "TabNet" and obs.get("ghost_sizes"):
         term = f"({term} && ghost_sizes_ok {obs.get('ghost_vbs', 512)} {obs['n']} (Some {P.cnats(obs['ghost_sizes'])}))"
     return term
@@ -857,6 +939,9 @@ def sanity(cases, obss):
                 probs.append(f"{m} with {cls} never scored at 0 training steps")
     if d.get("probes_total", 0) and d.get("probes_incomplete", 0) > 0.05 * d["probes_total"]:
         probs.append(f"{d['probes_incomplete']} of {d['probes_total']} intermediate probes were compared for soundness only")
+    for cls in ("LinearBucketEncoder", "LinearPeriodicEncoder"):
+        if d.get("encoder_stage_compared", {}).get(cls, 0) == 0:
+            probs.append(f"the encoder stage of {cls} was never compared with C13's model")
     if d.get("ghost_size_lists_compared", 0) == 0:
         probs.append("the ghost batch norm call sizes were never observed")
     bd = d.get("boundaries", {})
